@@ -57,8 +57,13 @@ impl View for DeltaMap {
     type V = DMap;
     uninterp spec fn view(&self) -> DMap;
 }
-/// mirror of `struct Melda` restricted to the fields the gate uses (full field list checked against /repo)
+/// lock erasure of `RwLock<BTreeMap<String, Mutex<RevisionTree>>>` (the revision trees): never touched by the gate, opaque here
+/// (unit `refreshm` gives it an abstract value)
+#[verifier::external_body]
+pub struct DocMap { m: () }
+/// mirror of `struct Melda` restricted to the fields the gate and `refresh` / `reload` use (full field list checked against /repo)
 pub struct Melda {
+    pub documents: DocMap,
     pub data: DataStorage,
     pub deltas: DeltaMap,
 }
@@ -167,6 +172,19 @@ pub open spec fn changes_sure(ds: DataStorage, cs: Option<Seq<ChangeV>>) -> bool
 }
 pub open spec fn no_packs(ps: Option<Set<Seq<char>>>) -> bool {
     match ps { Some(s) => forall|p: Seq<char>| !(#[trigger] s.contains(p)), None => true }
+}
+/// the reasons a block is held back, in a form that is STABLE while decisions stand: a listed parent is unknown or itself
+/// Blocked, or a pack is listed (its load may fail), or a revision is not surely readable.  `stuck` implies `!gate_sure`.
+pub open spec fn dead_in(m: DMap, p: DidV) -> bool { !m.contains_key(p) || m[p].status is Blocked }
+pub open spec fn has_dead_parent(m: DMap, ps: Option<Set<DidV>>) -> bool {
+    match ps { Some(s) => exists|p: DidV| #[trigger] s.contains(p) && dead_in(m, p), None => false }
+}
+pub open spec fn stuck(m: DMap, ds: DataStorage, id: DidV) -> bool {
+    m.contains_key(id) && (has_dead_parent(m, m[id].parents) || !no_packs(m[id].packs) || !changes_sure(ds, m[id].changes))
+}
+/// every block held back by this step is stuck (in the state and over the storage the step ends in)
+pub open spec fn newly_stuck(a: DMap, b: DMap, ds: DataStorage) -> bool {
+    forall|k: DidV| #[trigger] b.contains_key(k) && a[k].status is Pending && b[k].status is Blocked ==> stuck(b, ds, k)
 }
 pub open spec fn gate_sure(m: DMap, ds: DataStorage, id: DidV) -> bool {
     &&& m.contains_key(id)
@@ -281,9 +299,10 @@ pub fn vx_deltas_set_status(m: &mut DeltaMap, h: &DeltaId, s: Status)
 // loop over each listed field, wherever it sits in the body)
 /// inside check_delta(id), while id is still undecided: o = state at entry, c = current state
 pub open spec fn gate_mid(o: Melda, c: Melda, id: DidV) -> bool {
-    &&& c.data == o.data
+    &&& c.data == o.data && c.documents == o.documents
     &&& closed(c.deltas@) && ranked(o.deltas@) && data_safe(o.data, o.deltas@)
     &&& frozen(o.deltas@, c.deltas@) && decides_only(o.deltas@, c.deltas@) && newly_gated(o.deltas@, c.deltas@, c.data)
+    &&& newly_stuck(o.deltas@, c.deltas@, c.data)
     &&& o.deltas@.contains_key(id) && o.deltas@[id].status is Pending && c.deltas@[id].status is Pending
     &&& forall|k: DidV| #[trigger] o.deltas@.contains_key(k) && c.deltas@[k].status != o.deltas@[k].status ==> rank(k) < rank(id)
 }
